@@ -13,7 +13,9 @@ B63 = 2 ** 63
 CODES = {1: "ABMF answer differs from the model", 2: "stored balances differ from the model",
          3: "C07 monitor: grant/balance/echo of a credit-control answer is not what the property states",
          31: "C07 monitor: refund whose sum exceeds int64 wraps the stored balance",
-         5: "RF answer differs from the model", 6: "C08 monitor: no answer for a known account, or price/allowed units not exact"}
+         5: "RF answer differs from the model", 6: "C08 monitor: no answer for a known account, or price/allowed units not exact",
+         8: "unit cost derived by the CHF (getUnitCost, observed as ChfUe.UnitCost) differs from the model",
+         9: "C08 monitor: the CHF derives a unit cost different from the one the rating server applied"}
 KNOWN_KEYS = {31: "C07/int64-overflow"}
 
 COSTS = ["1", "2", "7", "007", "1000", "0", "", ".", "abc", "-3", "+5", "1.5", "0.5", "2.50", "1.0000000000", "99999999999999999999",
@@ -127,6 +129,24 @@ def run_diamsim(ctx, lines, timeout=1800):
     return res
 
 
+def run_chargesim(ctx, lines, timeout=1800, extra_args=()):
+    inp = "\n".join(json.dumps(l) for l in lines) + "\n"
+    d = os.path.join(ctx.workdir, "chargesim")
+    os.makedirs(d, exist_ok=True)
+    rc, out = sh([os.path.join(HARNESS, "bin", "chargesim"), "-dir", d, "-timeout", "12s"] + list(extra_args), inp=inp, timeout=timeout)
+    res = []
+    for line in out.splitlines():
+        line = line.strip()
+        if line.startswith("{"):
+            try:
+                res.append(json.loads(line))
+            except Exception:
+                pass
+    if len(res) != len(lines):
+        raise RuntimeError("chargesim: %d answers for %d ops (rc=%d)\n%s" % (len(res), len(lines), rc, out[-2000:]))
+    return res
+
+
 HEADER = ("From Coq Require Import List ZArith.\nFrom Verif Require Import Charging.Servers Charging.CorrServers.\n"
           "Import ListNotations.\nOpen Scope Z_scope.\n")
 
@@ -211,9 +231,46 @@ def run(ctx, replay=None):
             classes[cls] = classes.get(cls, 0) + 1
             if i < 4:
                 samples.append({"unitCost": cost, "request": op})
-        evals, distinct = n, len({(c, json.dumps(o, sort_keys=True)) for (_, _, c, o) in reqs})
+        # CHF side: what getUnitCost makes of the same tariffs (observed as ChfUe.UnitCost after an update),
+        # next to the cost the server applies (price of one consumed unit)
+        ucosts = COSTS + [str(rng.randrange(1, 10 ** rng.choice([1, 3, 6, 10]))) for _ in range(6 if quick else 60)]
+        cs_ops, ds_ops = [], []
+        for j, cost in enumerate(ucosts):
+            supi = "imsi-2089388%08d" % j
+            bodyc = {"subscriberIdentifier": supi, "nfConsumerIdentification": {"nFName": "smf", "nodeFunctionality": "SMF"},
+                     "invocationSequenceNumber": 1, "notifyUri": "$NOTIFY/cb", "chargingId": 1,
+                     "multipleUnitUsage": [{"ratingGroup": 1, "requestedUnit": {"totalVolume": 1},
+                                            "usedUnitContainer": [{"quotaManagementIndicator": "ONLINE_CHARGING", "totalVolume": 0, "localSequenceNumber": 1}]}]}
+            cs_ops += [{"op": "account", "supi": supi, "rg": 1, "quota": "100000", "unitCost": cost}, {"op": "create", "body": bodyc}]
+            ds_ops += [{"op": "account", "supi": supi, "rg": 1, "quota": "100000", "unitCost": cost},
+                       {"op": "sur", "supi": supi, "rg": 1, "subType": 2, "consumed": 1, "quota": 0, "sessionId": "1"}]
+        okb, logb = go_build(["chargesim"])
+        if not okb:
+            raise RuntimeError("harness build failed:\n" + logb[-3000:])
+        r1 = run_chargesim(ctx, cs_ops)
+        upd = []
+        for j, cost in enumerate(ucosts):
+            loc = r1[2 * j + 1].get("location", "")
+            b2 = dict(cs_ops[2 * j + 1]["body"]); b2["invocationSequenceNumber"] = 2
+            upd.append({"op": "update", "ref": loc.rsplit("/", 1)[-1], "body": b2})
+        r2 = run_chargesim(ctx, cs_ops + upd)
+        rd = run_diamsim(ctx, ds_ops)
+        ucases = []
+        for j, cost in enumerate(ucosts):
+            supi = "imsi-2089388%08d" % j
+            o = r2[len(cs_ops) + j]
+            chf = ((o.get("ues") or {}).get(supi) or {}).get("unitCost", {}).get("1", -1)
+            od = rd[2 * j + 1]
+            srv = -1
+            if od.get("answered") and od.get("answer"):
+                srv = int(((od["answer"].get("ServiceRating") or {}).get("Price", -1)))
+            ucases.append("mkUcase %d %s (%d) (%d)" % (n + j, zl(cost), chf, srv))
+            index_extra = None
+        evals, distinct = n + len(ucosts), len({(c, json.dumps(o, sort_keys=True)) for (_, _, c, o) in reqs}) + len(set(ucosts))
         runner, rec = "run_rf", "rf_case"
         index = {i: {"unitCost": reqs[i][2], "request": reqs[i][3]} for i in range(n)}
+        for j, cost in enumerate(ucosts):
+            index[n + j] = {"unitCost": cost, "request": "chargesim: account, create, update (ChfUe.UnitCost) / diamsim: debit of 1 unit"}
     shards = 8
     files = []
     for sidx in range(shards):
@@ -222,14 +279,19 @@ def run(ctx, replay=None):
             f.write(HEADER + "Definition cases : list %s := [\n" % rec + ";\n".join(cases[sidx::shards]) +
                     "\n].\nDefinition M := Eval vm_compute in %s cases.\nPrint M.\n" % runner)
         files.append(fn)
+    if pid == "C08":
+        with open(os.path.join(ctx.workdir, "UcostCases.v"), "w") as f:
+            f.write(HEADER + "Definition cases : list ucase := [\n" + ";\n".join(ucases) +
+                    "\n].\nDefinition M := Eval vm_compute in run_ucost cases.\nPrint M.\n")
+        files.append("UcostCases.v")
     okc, mism, logs = run_case_files(files, ctx.workdir)
     if not okc and ctx.proof_broken is None:
         raise RuntimeError("case evaluation failed:\n" + "\n".join(logs)[:3000])
     by_code = {}
     for t in mism:
         by_code.setdefault(t[2], []).append(t)
-    mon = [3, 31] if pid == "C07" else [6]
-    corr = [1, 2] if pid == "C07" else [5]
+    mon = [3, 31] if pid == "C07" else [6, 9]
+    corr = [1, 2] if pid == "C07" else [5, 8]
     found = False
     for code in mon:
         if code in by_code:
